@@ -95,3 +95,6 @@ package util
 //@   noverify
 //@   pure
 //@   ensures result === stripANSI(b)
+
+// ---- C20: the queue's chunk list and depth are only touched under its lock (every method is atomic w.r.t. them) -------
+//@ guarded [C20] Queue.queue, Queue.depth by Queue.lock
